@@ -96,6 +96,14 @@ class Sim:
         # None: time.time() is the simulated clock itself (strictly
         # increasing); a number: the clock is read in ticks of that size
         self.clock_quantum = None
+        # fault: KeyboardInterrupt in the main thread once it has gone
+        # through that many yield points
+        self.interrupt_main_at = None
+        # ... and only while a function of that name is on its stack (None:
+        # anywhere).  A signal can arrive between any two bytecodes, also in
+        # the middle of a clean-up; no finite amount of try/finally makes a
+        # shutdown immune to that, and the checks do not ask for it.
+        self.interrupt_main_in = None
 
     # ------------------------------------------------------------------ util
     def label(self, obj, prefix):
@@ -214,6 +222,26 @@ class Sim:
         nxt = self._choose(cands, me.tid)
         if nxt != me.tid:
             self._switch_to(self.threads[nxt])
+        if me.tid == 0 and self.interrupt_main_at is not None and \
+                me.nsteps >= self.interrupt_main_at and \
+                self._main_is_inside(self.interrupt_main_in):
+            # fault: the user presses Ctrl-C (delivered to the main thread,
+            # here at a synchronisation point)
+            self.interrupt_main_at = None
+            self.hit('fault-fired:keyboard-interrupt-in-the-main-thread')
+            self._record(0, 'interrupted', None)
+            raise KeyboardInterrupt()
+
+    @staticmethod
+    def _main_is_inside(names):
+        if not names:
+            return True
+        frame = sys._getframe(2)
+        while frame is not None:
+            if frame.f_code.co_name in names:
+                return True
+            frame = frame.f_back
+        return False
 
     def block(self, op, lab=None):
         '''The current thread is blocked (its state is already 'B').'''
@@ -320,6 +348,8 @@ class Sim:
                 except SimCrash as exc:
                     self.main_exc = exc
                 except Exception as exc:  # noqa
+                    self.main_exc = exc
+                except KeyboardInterrupt as exc:
                     self.main_exc = exc
                 self.mark('main-returned')
             t0 = SimThread(target=_main, name='MainThread')
